@@ -4,6 +4,7 @@ package c07rt
 
 import (
 	"bytes"
+	"context"
 	"encoding/binary"
 	"errors"
 	"fmt"
@@ -23,7 +24,32 @@ type c07Compat struct {
 
 	mu     sync.Mutex
 	stores map[string]*message.ChannelStore
+	ctxs   map[string]context.Context
 	churn  int
+}
+
+// SetCtx makes every following context-taking call on ch use ctx (nil = live).
+// The compat append / apply / truncate entry points take no context.
+func (c *c07Compat) SetCtx(ch *c07Chan, ctx context.Context) {
+	c.mu.Lock()
+	defer c.mu.Unlock()
+	if c.ctxs == nil {
+		c.ctxs = map[string]context.Context{}
+	}
+	if ctx == nil {
+		delete(c.ctxs, ch.Key)
+	} else {
+		c.ctxs[ch.Key] = ctx
+	}
+}
+
+func (c *c07Compat) cx(ch *c07Chan) context.Context {
+	c.mu.Lock()
+	defer c.mu.Unlock()
+	if ctx := c.ctxs[ch.Key]; ctx != nil {
+		return ctx
+	}
+	return c07Ctx
 }
 
 func c07NewCompat(dir string) *c07Compat {
@@ -91,6 +117,8 @@ func (c *c07Compat) ClassOf(err error) string {
 	switch {
 	case err == nil:
 		return "ok"
+	case errors.Is(err, context.Canceled):
+		return "cancelled"
 	case errors.Is(err, compat.ErrCorruptState):
 		return "corrupt"
 	case errors.Is(err, compat.ErrInvalidArgument):
@@ -215,18 +243,18 @@ func (c *c07Compat) Apply(ch *c07Chan, baseSeq uint64, recs []c07Rec, ck *c07Ckp
 func (c *c07Compat) Truncate(ch *c07Chan, to uint64) error { return c.st(ch).Truncate(to) }
 
 func (c *c07Compat) Adopt(ch *c07Chan, through uint64) error {
-	return c.st(ch).AdoptRetentionBoundary(c07Ctx, through, "c07")
+	return c.st(ch).AdoptRetentionBoundary(c.cx(ch), through, "c07")
 }
 
 func (c *c07Compat) Trim(ch *c07Chan, through uint64, maxMsgs, maxBytes int) (c07TrimRes, error) {
-	res, err := c.st(ch).TrimMessagesThroughLimit(c07Ctx, through, message.RetentionTrimOptions{MaxMessages: maxMsgs, MaxBytes: maxBytes})
+	res, err := c.st(ch).TrimMessagesThroughLimit(c.cx(ch), through, message.RetentionTrimOptions{MaxMessages: maxMsgs, MaxBytes: maxBytes})
 	return c07TrimRes{res.DeletedThroughSeq, res.Deleted, res.More}, err
 }
 
 func (c *c07Compat) StoreCkpt(ch *c07Chan, ck c07Ckpt, mono bool, visibleHW, leo uint64) error {
 	cc := compat.Checkpoint{Epoch: ck.Epoch, LogStartOffset: ck.LogStart, HW: ck.HW}
 	if mono {
-		return c.st(ch).StoreCheckpointMonotonic(c07Ctx, cc, visibleHW, leo)
+		return c.st(ch).StoreCheckpointMonotonic(c.cx(ch), cc, visibleHW, leo)
 	}
 	return c.st(ch).StoreCheckpoint(cc)
 }
@@ -264,7 +292,7 @@ func c07FromCompat(m compat.Message) c07Rec {
 }
 
 func (c *c07Compat) Scan(ch *c07Chan, from uint64, limit, maxBytes int, reverse bool) ([]c07Rec, error) {
-	ms, err := c.st(ch).ListMessagesBySeq(c07Ctx, from, limit, maxBytes, reverse)
+	ms, err := c.st(ch).ListMessagesBySeq(c.cx(ch), from, limit, maxBytes, reverse)
 	out := make([]c07Rec, len(ms))
 	for i, m := range ms {
 		out[i] = c07FromCompat(m)
@@ -300,7 +328,7 @@ func (c *c07Compat) LookupPair(ch *c07Chan, p c07Pair) (c07Hit, bool, error) {
 }
 
 func (c *c07Compat) LastSender(ch *c07Chan, uid string, through uint64) (uint64, bool, error) {
-	return c.st(ch).GetLastSenderMessageSeq(c07Ctx, uid, through)
+	return c.st(ch).GetLastSenderMessageSeq(c.cx(ch), uid, through)
 }
 
 func (c *c07Compat) Retention(ch *c07Chan) (c07Ret, error) {
